@@ -93,16 +93,7 @@ def ref_prov(case, nodes, s, org):
     return s, org
 
 
-def pieces(pat, out):
-    """maximal separator-free pieces [(a, b)] of `out`, via re.split with the separators kept"""
-    parts = re.split("(" + pat + ")", out)
-    res, p = [], 0
-    for i, part in enumerate(parts):
-        if i % 2 == 0 and part:
-            res.append((p, p + len(part)))
-        p += len(part)
-    assert p == len(out)
-    return res
+pieces = G.pieces
 
 
 NASTY = ['"', "\\", "a", " ", ")", "(", ",", "<1:2>", "\n", "\t", '\\"', "null", "é", "\\\\", "'", "0", "-1"]
@@ -173,6 +164,10 @@ class C14(G.C13):
                     "(+ Verif/Common/Codec.lean for integers, Lnk and quoted strings), tied to delphin.repp / "
                     "delphin.tokens by the correspondence run", "CPython re as the reference engine"]
 
+    def tables(self):
+        """Pins: constants of the anchored code that the hand-written models mirror (see c14_pins in Props.lean)"""
+        return G.c14_tables()
+
     # ---- cases
     def cases(self, rng, tier, n):
         for c in super().cases(rng, tier, n):
@@ -200,7 +195,16 @@ class C14(G.C13):
             lat = YYTokenLattice([mk_token(t) for t in case["tokens"]])
             s = str(lat)
             back = YYTokenLattice.from_string(s)
-            return {"yy": cps(s), "reparsed": [G.jytok(t) for t in back.tokens], "same": back == lat}
+            first = [G.jytok(t) for t in back.tokens]
+            # reuse: other lattices are written and read in between (a fixed one and the previous case's), then the
+            # same calls again — in the same process, on the same objects
+            other = YYTokenLattice([YYToken(0, 0, 1, Lnk.charspan(0, 2), [1], 'q"\\', 'z', 3)])
+            for o in [other] + ([self._yy_prev] if getattr(self, "_yy_prev", None) is not None else []):
+                YYTokenLattice.from_string(str(o))
+            again = (str(lat) == s and [G.jytok(t) for t in YYTokenLattice.from_string(s).tokens] == first
+                     and [G.jytok(t) for t in YYTokenLattice.from_string(str(back)).tokens] == first)
+            self._yy_prev = lat
+            return {"yy": cps(s), "reparsed": first, "same": back == lat, "again": again}
         if case["kind"] == "yyparse":
             try:
                 back = YYTokenLattice.from_string(uncps(case["s"]))
@@ -253,6 +257,9 @@ class C14(G.C13):
         if case["kind"] == "yy":
             ok_shape = all(t["paths"] and t["lnk"] != [-1, -1] for t in case["tokens"])
             want = [dict(t) for t in case["tokens"]]
+            if not res.get("again", True):
+                fail("purity: writing / reading the same lattice again after other lattices gives a different result",
+                     repr(uncps(res["yy"]))[:400])
             if ok_shape and (res["reparsed"] != want or not res["same"]):
                 fail("the token lattice does not survive YY serialization and parsing",
                      repr((uncps(res["yy"]), want, res["reparsed"]))[:800])
@@ -332,6 +339,7 @@ class C14(G.C13):
                                 break
                 if not run["yysame"]:
                     fail("the token lattice does not survive YY serialization and parsing", repr((s, uncps(run["yy"]))))
+        fails.extend(obs.get("purity", []))
         if case["masks"]:
             nomask = G.map_nodes(case["prog"], lambda nd: [] if nd["k"] == "mask" else None)
             v = self.variant(case, nomask)
